@@ -206,7 +206,7 @@ func (x *Exec) makeEnv(sig *types.Signature, recvName string, self Term, entryVa
 			}
 		}
 		env.lookup = func(name string) (Term, bool) {
-			if r, ok := x.rename[name]; ok {
+			if r, ok := x.rename[name]; ok && !strings.HasPrefix(r, "expr:") {
 				name = r
 			}
 			var best types.Object
